@@ -276,6 +276,45 @@ Fixpoint closure (fuel : nat) (now : Z) (T : list Z) : list Z :=
     end
   end.
 
+(* the property's chain read strictly: FORWARD steps only (each new header later in height and
+   time than the trusted end it is judged from, whose validator set is the one the trust level is
+   taken of) from the headers trusted before the call ... *)
+Fixpoint closure_fwd (fuel : nat) (now : Z) (T : list Z) : list Z :=
+  match fuel with
+  | O => T
+  | S fuel' =>
+    let trusted := filter (fun b => in_tags (tag_of b) T) blks in
+    let fresh := filter (fun u => if in_tags (tag_of u) T then false
+                                  else existsb (fun a => step_okb now a u) trusted) blks in
+    match fresh with
+    | [] => T
+    | _ => closure_fwd fuel' now (T ++ map tag_of fresh)
+    end
+  end.
+(* ... and, below the first trusted height, hash links only *)
+Fixpoint closure_back (fuel : nat) (T : list Z) : list Z :=
+  match fuel with
+  | O => T
+  | S fuel' =>
+    let trusted := filter (fun b => in_tags (tag_of b) T) blks in
+    let fresh := filter (fun u => if in_tags (tag_of u) T then false
+                                  else existsb (fun a => back_okb a u) trusted) blks in
+    match fresh with
+    | [] => T
+    | _ => closure_back fuel' (T ++ map tag_of fresh)
+    end
+  end.
+
+(* every flagged-for-the-block slot of b's commit carries a signature of the validator of its
+   index over this commit's vote *)
+Definition all_slots_good (b : lblk) : bool :=
+  let c := lb_commit isig b in
+  Nat.eqb (length (lb_vals isig b)) (length (c_sigs c)) &&
+  forallb (fun '(v, cs) => negb (cs_flag cs =? block_id_flag_commit)
+                           || ((cs_addr cs =? v_addr v)
+                               && good_slot (h_chain (hd_of b)) (c_height c) (c_round c) (c_bid c) (v_key v) cs))
+          (combine (lb_vals isig b) (c_sigs c)).
+
 End Monitor.
 
 (* ------------------------------------------------------------------ check *)
@@ -408,6 +447,64 @@ Definition to_hdr11 (b : lblk) := to_header isig xhash zn b.
 Definition core11 (chain : Z) (b : lblk) :=
   lca_core isig ideal_verify xhash (xvhash tbl) xbid_hash (arank aorder) zn chain b.
 
+(* the static chain a provider serves: exactly one scripted answer, a block, for every height
+   1..n (n = length of the honest chain) *)
+Definition static_chain (p : Z) : option (list lblk) :=
+  match find (fun '(q, _, _) => q =? p) provs with
+  | None => None
+  | Some (_, _, sc) =>
+    let at_h := fun h : Z =>
+      match find (fun '(h', _) => h' =? h) sc with
+      | Some (_, [RB i]) => nth_error blks i
+      | _ => None
+      end in
+    let l := map at_h (map Z.of_nat (seq 1 (length hchain))) in
+    if forallb (fun o => match o with Some _ => true | None => false end) l
+    then Some (flat_map (@opt_list lblk) l) else None
+  end.
+
+Fixpoint adjacent_ok (now : Z) (l : list lblk) : bool :=
+  match l with
+  | a :: ((u :: _) as r) =>
+    (lb_height isig u =? lb_height isig a + 1) && step_okb P tbl now a u && all_slots_good u
+    && adjacent_ok now r
+  | _ => true
+  end.
+
+(* "the primary's side of the conflict can be examined against the witness's trace", decided on
+   the world: the primary (the same provider before and after the call) serves a static chain -
+   one block for every height, never an error - whose blocks up to the conflicting height form
+   valid ADJACENT steps at [now] (well formed, time increasing, not from the future, +2/3 of the
+   own set, ValidatorsHash = the predecessor's NextValidatorsHash, every for-block signature
+   good): bisection over such a chain can always fall back to adjacent steps and never meets an
+   invalid header; the witness the first evidence went to serves the honest chain, block for
+   block; and the primary's chain starts with the honest blocks (so that its block at the common
+   height is the witness's).  Then the reverse examination finds the divergence and the evidence
+   against the witness - conflicting block: an honest block that is not the primary's block of
+   that height - has to reach the primary; and the evidence that reached the witness carries a
+   block of the primary's chain. *)
+Definition both_sides_ok (now : Z) (before after : obs) : bool :=
+  if negb (N.eqb (obs_err after) 5) then true else
+  let p := obs_prim after in
+  if negb (p =? obs_prim before) then true else
+  match static_chain p, combine (obs_ev after) (obs_evx after) with
+  | Some pch, ((w, xtag, _), (bi, _, _, _, _)) :: _ =>
+    match (if bi <? 0 then None else nth_error blks (Z.to_nat bi)) with
+    | None => true
+    | Some xb =>
+      let hx := lb_height isig xb in
+      let upto := firstn (Z.to_nat hx) pch in
+      if negb (honest_provider w && negb (w =? p)) then true else
+      if negb (existsb (fun b => tag_of b =? xtag) upto) then true else
+      if negb (match pch with b1 :: _ => honest_tag (tag_of b1) | [] => false end) then true else
+      if negb (forallb honest_tag (map snd (obs_store before))) then true else
+      if negb (adjacent_ok now upto) then true else
+      existsb (fun '(q, t, _) => (q =? p) && honest_tag t
+                                 && negb (existsb (fun b => tag_of b =? t) pch)) (obs_ev after)
+    end
+  | _, _ => true
+  end.
+
 Definition ev_spec_ok (log : list (Z * Z * Z)) (e : Z * Z * Z) (x : evx) : bool :=
   let '(p, tag, H) := e in
   let '(bi, tm, tot, byz, _) := x in
@@ -462,7 +559,19 @@ Definition ev_monitors (P : params) (tbl : list (list validator)) (blks : list l
   let fresh := filter (fun x => negb (existsb (zz_eqb x) sb)) sa in
   let first_h := match sb with [] => 0 | (h, _) :: _ => h end in
   let fwd := filter (fun x => first_h <=? fst x) fresh in
-  [ (* 8: the evidence sent to a provider on the honest chain is what the specification says:
+  let bwd := filter (fun x => fst x <? first_h) fresh in
+  [ (* 11: the chain of the property, read strictly: a header stored at or above the first trusted
+           height is reachable from the headers trusted before the call by FORWARD steps only -
+           each later in height AND time than the trusted end it is judged from, adjacent with
+           matching NextValidatorsHash or signed by MORE than the configured trust level of THAT
+           end's validator set (tally of its members' valid signatures, by the case's key
+           table), +2/3 of its own set, trusted end within the trusting period, new header not
+           from the future - over all blocks of the case (forged and genuine); a header stored
+           below the first trusted height is reachable by hash links only *)
+    viol (forallb (fun x => in_tags (snd x) (closure_fwd P tbl blks (length blks) now (map snd sb))) fwd
+          && forallb (fun x => in_tags (snd x) (closure_back blks (length blks) (map snd sb))) bwd) 11;
+    (* 12: evidence for both sides when the primary's side can be examined *)
+    viol (both_sides_ok P tbl blks hchain provs now before after) 12; (* 8: the evidence sent to a provider on the honest chain is what the specification says:
           CommonHeight = the reference block's height unless the conflicting header is invalid
           (then below the conflicting block), Timestamp / TotalVotingPower = those of the honest
           block / validator set of CommonHeight, ByzantineValidators = THE specified list
